@@ -83,3 +83,68 @@ def c14(run, a):
     run.samples += ['theorem rowOK_sound (r : Row) : rowOK r = true -> forall x y, eval r x y = some (spec r.trait x y)',
                     'p 61 6100 <34 result columns, one per impl pair>']
     return run.finish()
+
+
+@drv.check('C15')
+def c15(run, a):
+    pid = 'C15'
+    info = vlib.extract()
+    run.cov['extracted'] = info.get('FmtTables.lean')
+    props_ok, cert_ok = vlib.standard_lean_phase(run, 'BytesVerif.Props.C15', 'BytesVerif.Cert.C15')
+    run.trusted += [
+        "tools/extract.py (T1): if/else-if chain, format strings, fmt_impl!/serde_impl! macro bodies -> tables; fail-closed",
+        "core::fmt rendering of {:02x}/{:02X}/{} of a char is modelled (Piece.render) and tied by T2 on all 256 bytes",
+        "serde's dispatch from deserializer to visitor method; serde_test as the driver of the five entry points",
+        "harness fmt stream + judge trace parser (T2)",
+    ]
+    run.assumptions += ["byte-string literal grammar = the strict subset accepted by Fmt.parseLit (printable ASCII, the Reference's simple escapes, \\xHH)"]
+    hb = vlib.cargo_build('debug', features=['serde'])
+
+    def feed(lines_out, replay_prefix):
+        for kind, ln, d in collect(run, lines_out, pid):
+            if kind == 'fail':
+                key = ('fmt=' + d['fmt']) if 'fmt' in d else ('serde=' + d.get('serde', '?'))
+                run.fail(key, ln, f"harness fmt {d.get('x', '-')}\n{ln}")
+            elif kind in ('model-diff', 'bad-trace', 'tie-gap'):
+                run.breakage('correspondence (fmt stream): ' + kind, ln)
+            elif kind == 'summary':
+                return d
+        return None
+
+    if not cert_ok:
+        lines, _ = vlib.run_judge(['cert-c15'])
+        bad = [vlib.kv(l)[1] for l in lines if l.startswith('bad-byte')]
+        others = [l for l in lines if l.startswith('bad-') and not l.startswith('bad-byte')]
+        before = len(run.oracle_fails)
+        for d in bad[:16]:
+            b = d['b']
+            for x in (b, b + '30', '30' + b, b + b):
+                out, hrc, jrc, herr = vlib.pipe([hb, 'fmt', x], ['fmt'])
+                feed(out, x)
+        if run.cert_breakage is not None:
+            run.cert_breakage['explained'] = (len(run.oracle_fails) > before) and not others
+            run.cert_breakage['detail'] += '\n' + '\n'.join(lines[:40])
+    if a.replay:
+        x = None
+        for ln in open(a.replay):
+            if ln.startswith('harness fmt'):
+                x = ln.split()[2]
+        out, hrc, jrc, herr = vlib.pipe([hb, 'fmt', x], ['fmt'])
+    else:
+        out, hrc, jrc, herr = vlib.pipe([hb, 'fmt'], ['fmt'])
+    if hrc != 0 or jrc != 0:
+        run.breakage('fmt stream did not complete', f'harness rc={hrc} judge rc={jrc}\n{herr[-1000:]}')
+    d = feed(out, None)
+    if d:
+        run.cov['evaluations'] = int(d['debug']) + int(d['hex']) * 2 + int(d['serde'])
+        run.cov['distinct_nontrivial'] = int(d['debug'])
+        run.cov['t2'] = d
+        if int(d.get('serde_entries', 0)) < 14 and not a.replay:
+            run.breakage('correspondence (fmt stream): serde entry points not all exercised', str(d))
+    run.cov['rule'] = ("T2: format!({:?}/{:x}/{:X}) of all 256 single bytes (6 representations each), all 65536 byte pairs, seeded random "
+                       "strings up to 300 bytes; each output parsed back by the Lean parser (oracle) and compared with the model's output "
+                       "(correspondence); serde: serialize + byte_buf/bytes/borrowed_bytes/seq/str/string via serde_test for both types; "
+                       "distinct_nontrivial = distinct contents strings formatted")
+    run.samples += [ln for ln in out if ln.startswith('oracle-fail') or ln.startswith('model-diff')][:3]
+    run.samples += ['d Bytes 0030 62225c30305c22 -> parseLit = some [0,48]', 'theorem debug_roundtrip (ch) : debugChainOK ch = true -> forall bs, exists s, fmtAll ch bs = some s /\\ parseLit s = some bs']
+    return run.finish()
